@@ -130,6 +130,14 @@ def cases(tier, seed):
                         c = _cfg(m, bc, "mirror", "cheb", n, od, "call", yb, 0, "float64")
                         c["mixbatch"] = 1
                         add(c)
+        # one object called twice with ONE sample buffer that is refilled in place between the calls
+        for n in (4, 5):
+            for (m, bc) in MB:
+                for od in ("sorted", "sorted_assume", "shuffled"):
+                    for yb in YBATCH:
+                        c = _cfg(m, bc, "mirror", "cheb", n, od, "call", yb, 0, "float64")
+                        c["inplace"] = 1
+                        add(c)
     else:
         for n in (3, 4, 5, 8, 24):
             for (m, bc) in MB:
@@ -359,6 +367,7 @@ def run_case(cfg):
         return o.value
 
     warned_both = []
+    inplace_buf = {}
 
     def evaluate(obj, Y, xq_t, qname):
         if yat == "init":
@@ -369,7 +378,19 @@ def run_case(cfg):
                 pb = (3,) if tuple(Y.shape[:-1]) != (3,) else (2, 2)
                 call(obj, xq_t, torch.linspace(0.0, 1.0, int(np.prod(pb)) * Y.shape[-1], dtype=Y.dtype).reshape(pb + (Y.shape[-1],)))
                 nexec[0] += 1
-            o = call(obj, xq_t, Y)
+            if cfg.get("inplace"):
+                # call history on ONE object and ONE sample buffer: the buffer holds other samples at the first
+                # call (result discarded) and is refilled in place before the judged call
+                buf = inplace_buf.setdefault(id(obj), torch.empty_like(Y))
+                with torch.no_grad():
+                    buf.copy_(torch.cos(3.0 * Y) - 0.5 * Y)
+                call(obj, xq_t, buf)
+                nexec[0] += 1
+                with torch.no_grad():
+                    buf.copy_(Y)
+                o = call(obj, xq_t, buf)
+            else:
+                o = call(obj, xq_t, Y)
         else:
             o = call(obj, xq_t, Y.flip(-1) * 0.5 + 3.0)
             warned_both.append(len(o.warnings) > 0)
